@@ -24,3 +24,25 @@ PROPS["C12"] = {
                     "trivia insertion only at lexer token boundaries of inputs that parse without errors"],
     "design_ref": "DESIGN.md section 3, C12",
 }
+
+PROPS["C04"] = {
+    "engine": "c04",
+    "level": "exploration",
+    "technique": "differential runtime monitor: interleaved standard-FB instances in generated ST programs vs. independent IEC models, compared after every call",
+    "quick": {"shards": 8, "budget_s": 15},
+    "thorough": {"shards": 16, "budget_s": 240},
+    "floor": {"quick": 1000, "thorough": 20000},
+    "require_counters": {"quick": {"instance_steps_compared": 50000}, "thorough": {"instance_steps_compared": 2000000}},
+    "rule": "case = (1-6 FB instances of mixed kinds/variants in one PROGRAM, trace of 4-64 cycles with per-instance inputs, call gating and dt "
+            "drawn from {0,1ns,1ms,PT-1,PT,PT+1,10PT,2^58,...}; PT/PV incl. 0, negative, type limits). distinct = (FB type list, quantised "
+            "trace shape); non-trivial = some instance's Q/QU output changed at least once during the trace (an edge / PT crossing happened)",
+    "level_text": "Each trace is executed by the real runtime through TestHarness (advance_time, set_input, cycle, get_output) and every "
+                  "instance's outputs are compared after every cycle with an independent model written from the property statement and "
+                  "docs/specs/08 (Q, CV, QU/QD exact; ET exact while timing, within [0,PT] after expiry where IEC and the repo docs differ). "
+                  "Held on the traces produced; violations are shrunk to a minimal trace.",
+    "level_note": "Trusted: the FB models in harness/src/engines/c04.rs (about 120 lines), TestHarness set_input/get_output. Traces with PT changed "
+                  "while timing only check output types and absence of panics/errors.",
+    "assumptions": ["total trace time < 2^61 ns so the runtime clock itself cannot overflow",
+                    "ET after a TOF delay / TP pulse has expired may be anything in [0,PT] (IEC holds PT, docs/specs/08 diagrams drop to 0)"],
+    "design_ref": "DESIGN.md section 3, C04",
+}
